@@ -101,7 +101,7 @@ class Opened(object):
                 pass
 
 
-def open_kind(kind, b):
+def open_kind(kind, b, bufsize=None):
     if kind == 'bytes':
         return Opened(bytes(b))
     if kind == 'bytesio':
@@ -124,7 +124,7 @@ def open_kind(kind, b):
         st.close_stream()
         return Opened(st)
     if kind == 'buffered-pipe':
-        return Opened(io.BufferedReader(RawPipe(b), buffer_size=16))
+        return Opened(io.BufferedReader(RawPipe(b), buffer_size=bufsize or 16))
     if kind == 'os-pipe':
         # a real kernel pipe: non-seekable, blocking; everything is written and the write end
         # closed before the decoder reads, so what the reader sees does not depend on timing
@@ -140,7 +140,8 @@ def open_kind(kind, b):
         path = os.path.join(d, 'f.bin')
         with open(path, 'wb') as f:
             f.write(b)
-        fh = open(path, 'rb')
+        # an application may open its file with any buffer size; refills then fall on other offsets
+        fh = open(path, 'rb') if not bufsize else open(path, 'rb', buffering=bufsize)
         return Opened(fh, (fh,))
     if kind == 'gzip':
         path = os.path.join(d, 'f.gz')
@@ -170,7 +171,8 @@ def gen_plan(r, index, tier):
 def _gen_a(r):
     shape = r.choice(['valid', 'valid', 'corrupt', 'corrupt', 'wide', 'deep', 'big'])
     thr = r.choice([4, 16, 64, 8192, None])
-    pl = {'check': ID, 'part': 'A', 'shape': shape, 'config': {'threshold': thr, 'kind': 'all'}}
+    pl = {'check': ID, 'part': 'A', 'shape': shape, 'config': {'threshold': thr, 'kind': 'all',
+                                                                'bufsize': r.choice([None, None, 16, 16, 17, 64, 4096])}}
     if shape in ('valid', 'corrupt'):
         w, cfg = common.gen_stream_workload(r, max_values=3)
         pl['workload'] = w
@@ -336,7 +338,7 @@ def _exec_a(plan):
         trace.append(['ref', ref[0][0], ref[1][2], len(b)])
         for kind in kinds:
             streams.reset_drop_events()
-            got = _outcomes(dec, lambda: open_kind(kind, b), spec, kw, nmax)
+            got = _outcomes(dec, lambda: open_kind(kind, b, conf.get('bufsize')), spec, kw, nmax)
             trace.append(['kind', kind, got[0][0], got[1][2]])
             ctr['kind.%s' % kind] = ctr.get('kind.%s' % kind, 0) + 1
             for which, g, w_ in (('one-shot', got[0], ref[0]), ('streaming', got[1], ref[1])):
@@ -357,6 +359,7 @@ def _exec_a(plan):
     ctr['ref.%s' % ref[0][0]] = 1
     if conf.get('threshold') is not None:
         ctr['knob.threshold.%s' % conf['threshold']] = 1
+    ctr['knob.file_buffer.%s' % (conf.get('bufsize') or 'default')] = 1
     thr = conf.get('threshold') or 8192
     if len(b) > thr:
         ctr['probe.input_larger_than_threshold'] = 1
